@@ -158,6 +158,12 @@ func (a *Alerts) Set(alert *types.Alert) error {
 	fp := alert.Fingerprint()
 	name := alert.Name()
 
+	// Updates of one alert can be delivered out of order (for example by
+	// concurrent ingestion workers): never replace a version by an older one.
+	if old, ok := a.alerts[fp]; ok && alert.UpdatedAt.Before(old.UpdatedAt) {
+		return nil
+	}
+
 	// Apply per alert limits if necessary
 	if a.perAlertLimit > 0 {
 		bucket, ok := a.limits[name]
